@@ -2,6 +2,7 @@
 from contracts import formulas as F
 
 from contracts import wrappers as W
+from contracts import core as K
 ID = "C12"
 LEVEL = "proof"
 TRUSTED = ["A1 real arithmetic", "A3 builtins", "A5 attribute resolution", "A6 solvers"]
@@ -9,7 +10,7 @@ EXPLANATION = "see DESIGN.md C12"
 
 
 def units(tier):
-    return ([F.U_ION_MASS, F.U_NAT_RATIO, F.U_NATDENS_GET, F.U_NATDENS_SET] + F.U_INIT + F.U_CELL_VOLUME + [F.U_CELL_VOLUME_MISSING] + F.U_VOLUME + [F.U_SUBSTITUTION] + F.U_FORMULA_OF_FORMULA) + W.U_FORMULA_REPLACE
+    return (([F.U_ION_MASS, F.U_NAT_RATIO, F.U_NATDENS_GET, F.U_NATDENS_SET] + F.U_INIT + F.U_CELL_VOLUME + [F.U_CELL_VOLUME_MISSING] + F.U_VOLUME + [F.U_SUBSTITUTION] + F.U_FORMULA_OF_FORMULA) + W.U_FORMULA_REPLACE) + [K.L_ATOM_IDENTITY]
 
 
 def runner_tasks(tier):
